@@ -100,3 +100,23 @@ def t4_cc_mle(cc):
 
 def t4_cc_mlc(cc):
     return cc[5] * 256 + cc[6]
+
+
+def t12_view(mem, off, end, a, b):
+    """the message a fresh Type 1/2 reader finds in the NDEF TLV at `off` of a memory image whose data area ends
+    at `end` (exclusive) and whose only reserved range is [a, b) - for layouts in which that range does not
+    touch the TLV (it lies before `off` or behind the data area, or is empty).  NO_NDEF when there is no NDEF
+    TLV at `off` or its value does not fit the data area."""
+    if off + 2 > end or mem[off] != 3:
+        return NO_NDEF
+    if mem[off + 1] < 255:
+        n = mem[off + 1]
+        s = off + 2
+    else:
+        if off + 4 > end:
+            return NO_NDEF
+        n = mem[off + 2] * 256 + mem[off + 3]
+        s = off + 4
+    if s + n > end:
+        return NO_NDEF
+    return mem[s:s + n]
